@@ -726,6 +726,7 @@ package iscp
 //@   assert call SendDownstreamDataPointsAck: sent == 0 && arg2 != nil && arg2.StreamIDAlias == d.idAlias && arg2.AckID == (old(d.chunkAckIDSequence.Current) + 1) % 4294967296
 //@   assert call SendDownstreamDataPointsAck: arg2.Results == old(d.resultAckBuffer) && arg2.DataIDAliases == old(d.dataIDAckBuffer) && arg2.UpstreamAliases == old(d.upstreamInfoAckBuffer)
 //@   assert call SendDownstreamDataPointsAck: len(d.resultAckBuffer) == 0 && len(d.dataIDAckBuffer) == 0 && len(d.upstreamInfoAckBuffer) == 0 && d.dataIDAckBuffer != old(d.dataIDAckBuffer) && d.upstreamInfoAckBuffer != old(d.upstreamInfoAckBuffer)
+//@   assert call SendDownstreamDataPointsAck: arrayof(d.resultAckBuffer) != arrayof(arg2.Results)   // the results handed to the transport share no storage with the buffer that later results are appended to
 //@   after call SendDownstreamDataPointsAck: sent = sent + 1
 //@   ensures imp(old(len(d.dataIDAckBuffer)) == 0 && old(len(d.resultAckBuffer)) == 0 && old(len(d.upstreamInfoAckBuffer)) == 0, sent == 0 && result == nil && d.chunkAckIDSequence.Current == old(d.chunkAckIDSequence.Current))
 //@   ensures imp(old(len(d.dataIDAckBuffer)) != 0 || old(len(d.resultAckBuffer)) != 0 || old(len(d.upstreamInfoAckBuffer)) != 0, sent == 1)
